@@ -8,7 +8,7 @@ package preference_reversal
 //@ spec mirrored(r utils.ValueRange, v real) real = r.Max - v + r.Min
 
 //@ func getCriteriaToReverse
-//@   property C16 C07 C09
+//@   property C16 C07 C09 C01
 //@   ensures [selected] fresh(result) && fresh(*result) && len(*result) == len(*criteriaToReverse)
 //@             && forall k int :: 0 <= k && k < len(*criteriaToReverse) ==> (*result)[k].criterion == (*criteriaToReverse)[k] && (*result)[k].valRange != nil
 //@   ensures [declared_range] forall k int :: 0 <= k && k < len(*criteriaToReverse) && (*criteriaToReverse)[k].ValuesRange != nil ==> (*result)[k].valRange == (*criteriaToReverse)[k].ValuesRange
@@ -33,7 +33,7 @@ package preference_reversal
 //@          ((q in nw.Criteria <==> q in od.Criteria) && (q in nw.Criteria ==> nw.Criteria[q] == od.Criteria[q])))
 
 //@ func reverseCriteriaForEachAlternative
-//@   property C16 C09 C07
+//@   property C16 C09 C07 C01
 //@   requires forall i int, j int :: 0 <= i && i < j && j < len(*criteriaToReverse) ==> (*criteriaToReverse)[i].criterion.Id != (*criteriaToReverse)[j].criterion.Id
 //@   requires forall k int :: 0 <= k && k < len(*criteriaToReverse) ==> (*criteriaToReverse)[k].valRange != nil
 //@   ensures [all_alternatives] fresh(result0) && fresh(*result0) && len(*result0) == len(resParams.ConsideredAlternatives) + len(resParams.NotConsideredAlternatives)
@@ -87,7 +87,7 @@ package preference_reversal
 //@             ((q in *newCriteria <==> q in a.Criteria) && (q in a.Criteria ==> (*newCriteria)[q] == a.Criteria[q]))
 
 //@ func updateAlternativesWithReversedCriteriaValues
-//@   property C16 C09 C07
+//@   property C16 C09 C07 C01
 //@   requires forall i int, j int :: 0 <= i && i < j && j < len(*criteriaToReverse) ==> (*criteriaToReverse)[i].criterion.Id != (*criteriaToReverse)[j].criterion.Id
 //@   requires forall k int :: 0 <= k && k < len(*criteriaToReverse) ==> (*criteriaToReverse)[k].valRange != nil
 //@   requires distinctAll(resParams.ConsideredAlternatives, resParams.NotConsideredAlternatives)
@@ -100,7 +100,7 @@ package preference_reversal
 //@   ensures [report_shape] len(*result.alternativesValues) == len(*criteriaToReverse)
 
 //@ func prepareReverseResult
-//@   property C16 C07 C09
+//@   property C16 C07 C09 C01
 //@   requires len(*reverseResult.alternativesValues) >= len(*criteriaToReverse)
 //@   ensures [report] fresh(result) && len(result) == len(*criteriaToReverse) && forall k int :: 0 <= k && k < len(*criteriaToReverse) ==>
 //@             result[k].Id == (*criteriaToReverse)[k].criterion.Id && result[k].Type == (*criteriaToReverse)[k].criterion.Type
